@@ -180,6 +180,9 @@ class ParProp(props.BaseProp):
         srcs = [r.below(n) for _ in range(k)]
         calls.append("multi_source %d %d %d %s" % (wflag(), int(r.chance(1, 3)), int(r.chance(2, 3)),
                                                    " ".join(map(str, srcs))))
+        # a target: the sources are searched independently (no state carried from one source to the next)
+        calls.append("multi_source %d %d %d %s -1 %d" % (wflag(), int(r.chance(1, 3)), int(r.chance(2, 3)),
+                                                         " ".join(str(r.below(n)) for _ in range(3 + r.below(3))), r.below(n)))
         calls.append("involving %d %d" % (wflag(), r.below(n)))
         calls.append("betweenness %d %d" % (wflag(), int(r.chance(1, 2))))
         calls.append("betweenness %d %d" % (int(weighted), int(r.chance(1, 2))))
